@@ -15,7 +15,7 @@ PROP = {
                   "(number-format code, column width/hidden/bestFit) - a hypothesis of the theorems (hkey), instantiated by the identity in the driver; HashMap<u32,NumberingFormat> "
                   "modelled as an association list with distinct keys; f64 fields are tokens (Rust shortest decimal text), so NaN and -0 are outside the model; "
                   "the XML codecs of font/fill/border/alignment/protection/format code are parameters with a round-trip-up-to-normalisation hypothesis.",
-    "expect_theorems": ["C05_init", "C05_get_set", "C05_reload", "C05_get_set_reload", "C05_get_set_all", "C05_no_merge", "C05_no_growth", "C05_no_growth_resave", "C05_cols",
+    "expect_theorems": ["C05_tables_match_source", "C05_init", "C05_get_set", "C05_reload", "C05_get_set_reload", "C05_get_set_all", "C05_no_merge", "C05_no_growth", "C05_no_growth_resave", "C05_cols",
                         "C05_col_key_injective", "C05_font_key_fails", "C05_color_key_fails", "C05_key_lookup_merges_fails", "C05_eq_lookup_separates"],
     "rule": "one case = one workbook (reset, cell/row/col assignments, save). Streams: (1) every adjacent-field collision pair of the concatenated keys of the unfixed code "
             "(font name|size, size|family, name 'empty!!' vs none, colour argb|tint inside font / pattern fill / border edge / gradient stop, colour none vs argb 'empty!!'), each pair "
